@@ -14,6 +14,8 @@ Streams (all through the real `trackpy` of $VERIF_REPO):
              sequence class) through `tp.batch` with processes in {1, 2, 3} (sometimes 'auto').
              DIRECT ORACLE: every table is identical to the concatenation, in frame order, of
              `tp.locate(frame)` with the `frame` column set, empty results dropped.
+  size       (inside shift / transpose / batch; `big` in the input) very long axes and frames above
+             1 Mpx / 4 Mpx, rendered from a recipe; direct oracle only, nothing goes to the driver.
   stage      model correspondence for the stage-level facts: `Find.greyDilation` on the model's own
              `Locate.embed` / `Locate.revImg` images vs `tp.grey_dilation` on the numpy images
              (ops C09GD / C09GDT, which also re-check the theorems' decidable hypotheses and
@@ -40,7 +42,17 @@ RULE = ("shift: content 2-D 10-36 px / 3-D 7-12 px per axis (blobs on noise, 2-6
         "radius + max_iterations) + 1 per side.  transpose: integer images, preprocess=False, "
         "2-D transpose (C-contiguous copy or strided view) and 3-D axis permutations.  batch: 3-6 "
         "frames of 28-44 px, ~1/3 of the frames featureless.  stage: small images (<= 12 px "
-        "content) for the exact models.  Non-trivial = at least one feature was located (shift, "
+        "content) for the exact models.  SIZE classes (few per run, rendered from recipes, direct oracle "
+        "only): shift in a canvas with one axis of 32.8k-36k / 40k / 65.6k-70k / 131k-134k px (2-D either "
+        "axis, 3-D every 8th) with the content below / across / beyond pixel 2^15 and 2^16 and at the far "
+        "end, dtype also float32; shift of a small content in a canvas above 1 Mpx / 4 Mpx and of a "
+        "rendered content above 1 Mpx / 4 Mpx (every pixel non-zero); transpose of frames above 1 Mpx "
+        "(round camera sizes and random), above 4 Mpx, with one axis beyond 2^15 / 2^16, and 250-520 px "
+        "controls: uint8 / uint16, every pixel non-zero, background strictly rising ramp / flat pedestal "
+        "/ 16-bit noise, interlaced rows or columns (period 2-8, multiplicative or additive, random "
+        "phase), 60-260 blobs with all-different amplitudes from just above the background to several "
+        "times its range; batch with one such frame (uint8 / uint16 / float32) among the small ones.  "
+        "Non-trivial = at least one feature was located (shift, "
         "transpose), at least one non-empty frame and >= 2 process counts (batch), a non-empty "
         "maxima / feature list (stage); distinct = distinct canonical input.")
 ASSUMPTIONS = [
@@ -61,6 +73,19 @@ ASSUMPTIONS = [
     "separation (a full tie of where_close, decided by row order / float rounding of the key) is "
     "outside the comparison: such cases are detected on the pre-deduplication table and counted "
     "borderline",
+    "float32 frames (shift, batch): numpy accumulates mean / std of a float32 array in float32, so the "
+    "background statistics of measure_noise and with them ep depend on the summation order at the "
+    "1e-7 level (observed 8e-8 on a 63 x 35662 canvas); ep is compared at 1e-5 relative for float32 "
+    "frames, every other column at 1e-9 (pixels are multiples of 1/256: raw_mass is exact)",
+    "big frames (one axis beyond 2^15 / 2^16 / 2^17 px, or more than 1 / 4 Mpx) are rendered from a "
+    "recipe and go through the DIRECT ORACLE only (counter big_cases_oracle_only); on them the "
+    "candidate maxima of trackpy.find.grey_dilation (called as locate calls it) are compared first "
+    "(transposed candidates / same count at both offsets) and frames with more than 30000 candidates "
+    "are not refined (counters *_too_many_candidates_skipped)",
+    "with numba absent and NumPy >= 2 the interpreted 3-D kernel raises OverflowError for a candidate "
+    "beyond pixel 32767 (Python int + np.int16 mask offset); compiled numba does not (an artefact "
+    "of the interpreted kernels; the 2-D kernels keep np.int64 coordinates): 3-D stacks with a long axis "
+    "are run with engine='python' only",
     "bandpass on a shifted content is bit-identical relative to the content because "
     "uniform_filter1d's running sum passes through exact zeros before the content; the trailing "
     "rounding residue (~1e-14) is removed by the threshold (>= 1/255)",
@@ -746,9 +771,14 @@ def sort_rows(df, poscols):
     return df.iloc[order].reset_index(drop=True)
 
 
-def compare_tables(A, B, poscols, delta):
+EP_RTOL_FLOAT32 = 1e-5
+
+
+def compare_tables(A, B, poscols, delta, ep_rtol=TOL):
     """A, B: DataFrames with the SAME column names (B already renamed); rows matched after sorting
     by position (A shifted by delta).  Returns (list of differing columns, detail)"""
+    if (len(A) == 0) != (len(B) == 0):      # (an empty table also lacks the ep columns)
+        return ["<rows>"], "%d rows vs %d rows" % (len(A), len(B))
     if list(A.columns) != list(B.columns):
         return ["<columns>"], "columns %s vs %s" % (list(A.columns), list(B.columns))
     skip_ep = False
@@ -782,7 +812,7 @@ def compare_tables(A, B, poscols, delta):
                 ok = (math.isnan(av[k]) and math.isnan(bv[k])) or abs(av[k] - bv[k]) <= TOL * (es + abs(av[k]))
             elif c.startswith("ep"):
                 ok = (math.isnan(av[k]) and math.isnan(bv[k])) or \
-                    abs(av[k] - bv[k]) <= TOL * max(abs(av[k]), abs(bv[k])) + 1e-12
+                    abs(av[k] - bv[k]) <= ep_rtol * max(abs(av[k]), abs(bv[k])) + 1e-12
             else:
                 ok = close(av[k], bv[k])
             if not ok:
@@ -933,7 +963,13 @@ def run_shift(ctx, inp):
         res.stat("shift_maxsize_filter")
     if "topn" in kwargs:
         res.stat("shift_topn")
-    bad, detail = compare_tables(A, B, pos, delta)
+    ep_rtol = TOL
+    if inp["dtype"] == "float32":
+        # measure_noise takes mean / std of the raw float32 pixels with float32 accumulators: the
+        # background statistics (hence ep) are reproducible to float32 rounding only
+        ep_rtol = EP_RTOL_FLOAT32
+        res.stat("shift_float32_ep_at_1e-5")
+    bad, detail = compare_tables(A, B, pos, delta, ep_rtol=ep_rtol)
     if detail and detail.startswith("C08-ep-defect"):
         res.stat("c08_aniso_ep_defect_ep_columns_skipped")
     if bad:
